@@ -638,6 +638,11 @@ func (ef *Filter) filterValue(ctx context.Context, fv reflect.Value, classificat
 				if _, err := pointerstructure.Set(opts.withPointerstructureInfo.i, opts.withPointerstructureInfo.pointer, structpb.NewStringValue(data)); err != nil {
 					return fmt.Errorf("%s: %w", op, err)
 				}
+			case ftype == reflect.TypeOf([]uint8(nil)):
+				// a tagged []byte entry stays a []byte
+				if _, err := pointerstructure.Set(opts.withPointerstructureInfo.i, opts.withPointerstructureInfo.pointer, []byte(data)); err != nil {
+					return fmt.Errorf("%s: %w", op, err)
+				}
 			default:
 				if _, err := pointerstructure.Set(opts.withPointerstructureInfo.i, opts.withPointerstructureInfo.pointer, data); err != nil {
 					return fmt.Errorf("%s: %w", op, err)
